@@ -210,6 +210,17 @@ class Type1Tag(Tag):
             self._ndef_tlv_offset = offset
             self._tag_memory = tag_memory
             self._skip_bytes = skip_bytes
+
+            if ndef is not None:
+                # The ndef message tlv must be within the data area
+                # and not be longer than the capacity.
+                start = offset + (4 if tag_memory[offset+1] == 0xFF else 2)
+                space = set(range(start, tag_memory_size)) - skip_bytes
+                if (start > tag_memory_size or len(ndef) > len(space)
+                        or len(ndef) > self._capacity):
+                    log.debug("ndef message tlv exceeds the data area")
+                    return None
+
             return ndef
 
         def _write_ndef_data(self, data):
